@@ -1,51 +1,474 @@
 import MpireModel.Model.Chunk
+import Mathlib.Tactic.Linarith
+import Mathlib.Tactic.Ring
+import Mathlib.Algebra.Order.Field.Rat
+import Mathlib.Data.Rat.Cast.Order
 /-! Helper lemmas for `Props/C14.lean`. -/
 namespace Mpire.Proofs
 open Mpire
 
+/-! ## One-step unfoldings of `chunkLoop` -/
+
+theorem want_ne_zero {α} (A : Arith α) (cur : α) : A.want cur ≠ 0 := by
+  have := A.want_pos cur; omega
+
+theorem chunkLoop_nil {α β} (A : Arith α) (c : α) (lim : Option Nat) (cur : α) (ret : Nat) :
+    chunkLoop A c lim ([] : List β) cur ret = [] := by
+  rw [chunkLoop.eq_def]; simp
+
+theorem chunkLoop_none {α β} (A : Arith α) (c : α) (xs : List β) (cur : α) (ret : Nat) (h : xs ≠ []) :
+    chunkLoop A c none xs cur ret =
+      xs.take (A.want cur) ::
+        chunkLoop A c none (xs.drop (A.want cur)) (A.next c cur) (ret + min (A.want cur) xs.length) := by
+  rw [chunkLoop]; simp [want_ne_zero, h]
+
+theorem chunkLoop_some_cut {α β} (A : Arith α) (c : α) (l : Nat) (xs : List β) (cur : α) (ret : Nat)
+    (h : xs ≠ []) (hgt : l < ret + min (A.want cur) xs.length) :
+    chunkLoop A c (some l) xs cur ret = if l - ret = 0 then [] else [xs.take (l - ret)] := by
+  rw [chunkLoop]
+  have : min (l - ret) (A.want cur) = l - ret := by omega
+  simp [want_ne_zero, h, hgt, List.take_take, this]
+
+theorem chunkLoop_some_go {α β} (A : Arith α) (c : α) (l : Nat) (xs : List β) (cur : α) (ret : Nat)
+    (h : xs ≠ []) (hle : ret + min (A.want cur) xs.length ≤ l) :
+    chunkLoop A c (some l) xs cur ret =
+      xs.take (A.want cur) ::
+        chunkLoop A c (some l) (xs.drop (A.want cur)) (A.next c cur) (ret + min (A.want cur) xs.length) := by
+  rw [chunkLoop]
+  simp [want_ne_zero, h, Nat.not_lt.2 hle]
+
+/-! ## The loop on sizes only -/
+
+/-- The sizes of the chunks the loop yields when `avail` elements are still going to be yielded. -/
+def sizesLoop {α} (A : Arith α) (c : α) (avail : Nat) (cur : α) : List Nat :=
+  if _h : avail = 0 then []
+  else min (A.want cur) avail :: sizesLoop A c (avail - A.want cur) (A.next c cur)
+termination_by avail
+decreasing_by have := A.want_pos cur; omega
+
+theorem sizesLoop_zero {α} (A : Arith α) (c : α) (cur : α) : sizesLoop A c 0 cur = [] := by
+  rw [sizesLoop]; simp
+
+theorem sizesLoop_pos {α} (A : Arith α) (c : α) (avail : Nat) (cur : α) (h : avail ≠ 0) :
+    sizesLoop A c avail cur =
+      min (A.want cur) avail :: sizesLoop A c (avail - A.want cur) (A.next c cur) := by
+  rw [sizesLoop]; simp [h]
+
+theorem countLoop_eq {α} (A : Arith α) (c : α) (todo : Nat) (cur : α) :
+    countLoop A c todo cur = (sizesLoop A c todo cur).length := by
+  induction todo using Nat.strong_induction_on generalizing cur with
+  | _ todo ih =>
+    by_cases h : todo = 0
+    · subst h; rw [countLoop, sizesLoop_zero]; simp
+    · have := A.want_pos cur
+      rw [countLoop, sizesLoop_pos A c todo cur h, dif_neg h, ih _ (by omega)]
+      simp; omega
+
+/-! ## Structure of `chunkLoop` (any arithmetic) -/
+
+theorem chunkLoop_none_spec {α β} (A : Arith α) (c : α) (n : Nat) :
+    ∀ (xs : List β) (cur : α) (ret : Nat), xs.length = n →
+      (chunkLoop A c none xs cur ret).flatten = xs ∧
+      (∀ ch ∈ chunkLoop A c none xs cur ret, ch ≠ []) ∧
+      (chunkLoop A c none xs cur ret).map List.length = sizesLoop A c xs.length cur := by
+  induction n using Nat.strong_induction_on with
+  | _ n ih =>
+    intro xs cur ret hn
+    by_cases h : xs = []
+    · subst h; simp [chunkLoop_nil, sizesLoop_zero]
+    · have hk := A.want_pos cur
+      have hpos : xs.length ≠ 0 := by simpa using h
+      obtain ⟨h1, h2, h3⟩ := ih (xs.drop (A.want cur)).length (by simp; omega)
+        (xs.drop (A.want cur)) (A.next c cur) (ret + min (A.want cur) xs.length) rfl
+      rw [chunkLoop_none A c xs cur ret h]
+      refine ⟨?_, ?_, ?_⟩
+      · simp [h1]
+      · intro ch hch
+        rcases List.mem_cons.1 hch with rfl | hch
+        · simp [want_ne_zero, h]
+        · exact h2 ch hch
+      · rw [sizesLoop_pos A c _ cur hpos]
+        simp [h3]
+
+theorem chunkLoop_some_spec {α β} (A : Arith α) (c : α) (l : Nat) (n : Nat) :
+    ∀ (xs : List β) (cur : α) (ret : Nat), xs.length = n →
+      (chunkLoop A c (some l) xs cur ret).flatten = xs.take (l - ret) ∧
+      (∀ ch ∈ chunkLoop A c (some l) xs cur ret, ch ≠ []) ∧
+      (chunkLoop A c (some l) xs cur ret).map List.length =
+        sizesLoop A c (min xs.length (l - ret)) cur := by
+  induction n using Nat.strong_induction_on with
+  | _ n ih =>
+    intro xs cur ret hn
+    by_cases h : xs = []
+    · subst h; simp [chunkLoop_nil, sizesLoop_zero]
+    · have hk := A.want_pos cur
+      have hpos : xs.length ≠ 0 := by simpa using h
+      by_cases hgt : l < ret + min (A.want cur) xs.length
+      · rw [chunkLoop_some_cut A c l xs cur ret h hgt]
+        by_cases h0 : l - ret = 0
+        · simp [h0, sizesLoop_zero]
+        · have hav : min xs.length (l - ret) = l - ret := by omega
+          have hav' : l - ret - A.want cur = 0 := by omega
+          have hm : min (A.want cur) (l - ret) = l - ret := by omega
+          rw [if_neg h0, hav, sizesLoop_pos A c _ cur h0, hav', sizesLoop_zero, hm]
+          refine ⟨by simp, ?_, by simp; omega⟩
+          intro ch hch
+          rw [List.mem_singleton] at hch
+          subst hch
+          simp [h0, h]
+      · have hle : ret + min (A.want cur) xs.length ≤ l := by omega
+        obtain ⟨h1, h2, h3⟩ := ih (xs.drop (A.want cur)).length (by simp; omega)
+          (xs.drop (A.want cur)) (A.next c cur) (ret + min (A.want cur) xs.length) rfl
+        rw [chunkLoop_some_go A c l xs cur ret h hle]
+        refine ⟨?_, ?_, ?_⟩
+        · rw [List.flatten_cons, h1]
+          by_cases hkl : A.want cur ≤ xs.length
+          · have e1 : l - ret = A.want cur + (l - (ret + min (A.want cur) xs.length)) := by omega
+            rw [e1, List.take_add]
+          · have e1 : xs.drop (A.want cur) = [] := by simp; omega
+            rw [e1, List.take_nil, List.append_nil, List.take_of_length_le (by omega),
+              List.take_of_length_le (by omega)]
+        · intro ch hch
+          rcases List.mem_cons.1 hch with rfl | hch
+          · simp [want_ne_zero, h]
+          · exact h2 ch hch
+        · have hav : min xs.length (l - ret) ≠ 0 := by omega
+          rw [sizesLoop_pos A c _ cur hav, List.map_cons, h3]
+          congr 1
+          · simp; omega
+          · congr 1
+            simp; omega
+
+theorem chunkLoop_partition {α β} (A : Arith α) (c : α) (lim : Option Nat) (xs : List β) (cur : α) :
+    (chunkLoop A c lim xs cur 0).flatten = cut lim xs ∧ ∀ ch ∈ chunkLoop A c lim xs cur 0, ch ≠ [] := by
+  cases lim with
+  | none => exact ⟨(chunkLoop_none_spec A c _ xs cur 0 rfl).1, (chunkLoop_none_spec A c _ xs cur 0 rfl).2.1⟩
+  | some l =>
+    exact ⟨by simpa [cut] using (chunkLoop_some_spec A c l _ xs cur 0 rfl).1,
+      (chunkLoop_some_spec A c l _ xs cur 0 rfl).2.1⟩
+
+theorem chunkLoop_sizes {α β} (A : Arith α) (c : α) (lim : Option Nat) (xs : List β) (cur : α) :
+    (chunkLoop A c lim xs cur 0).map List.length =
+      sizesLoop A c (match lim with | none => xs.length | some l => min xs.length l) cur := by
+  cases lim with
+  | none => exact (chunkLoop_none_spec A c _ xs cur 0 rfl).2.2
+  | some l => simpa using (chunkLoop_some_spec A c l _ xs cur 0 rfl).2.2
+
+theorem chunkLoop_length_full {α β} (A : Arith α) (c : α) (xs : List β) (cur : α) :
+    (chunkLoop A c (some xs.length) xs cur 0).length = countLoop A c xs.length cur := by
+  have h := chunkLoop_sizes A c (some xs.length) xs cur
+  have h' := congrArg List.length h
+  simpa [countLoop_eq] using h'
+
 theorem chunkTasks_partition {α β} (A : Arith α) (xs : List β) (sized : Bool) (lim : Option Nat) (cs : CS α)
     (ns : Option Nat) (chunks : List (List β)) (h : chunkTasks A xs sized lim cs ns = .ok chunks) :
     chunks.flatten = cut lim xs ∧ ∀ ch ∈ chunks, ch ≠ [] := by
-  sorry
+  unfold chunkTasks at h
+  cases cs with
+  | int k => injection h with h; subst h; exact chunkLoop_partition intA _ lim xs _
+  | real c => injection h with h; subst h; exact chunkLoop_partition A _ lim xs _
+  | none =>
+    cases ns with
+    | none => cases h
+    | some s =>
+      cases lim with
+      | some l => injection h with h; subst h; exact chunkLoop_partition A _ (some l) xs _
+      | none =>
+        cases sized with
+        | true => injection h with h; subst h; exact chunkLoop_partition A _ none xs _
+        | false => cases h
 
 theorem chunkLoop_head_length {α β} (A : Arith α) (c : α) (lim : Option Nat) (xs : List β) (cur : α) (ret : Nat)
     (ch : List β) (rest : List (List β)) (h : chunkLoop A c lim xs cur ret = ch :: rest) :
     ch.length = min (A.want cur) (match lim with | none => xs.length | some l => min xs.length (l - ret)) := by
-  sorry
+  by_cases hx : xs = []
+  · subst hx; rw [chunkLoop_nil] at h; cases h
+  · cases lim with
+    | none =>
+      rw [chunkLoop_none A c xs cur ret hx] at h
+      injection h with h _
+      subst h; simp
+    | some l =>
+      by_cases hgt : l < ret + min (A.want cur) xs.length
+      · rw [chunkLoop_some_cut A c l xs cur ret hx hgt] at h
+        by_cases h0 : l - ret = 0
+        · rw [if_pos h0] at h; cases h
+        · rw [if_neg h0] at h
+          injection h with h _
+          subst h; simp; omega
+      · rw [chunkLoop_some_go A c l xs cur ret hx (by omega)] at h
+        injection h with h _
+        subst h; simp; omega
 
 theorem numpy_announced {α β} (A : Arith α) (rows : List β) (lim : Option Nat) (cs : CS α)
     (ns : Option Nat) (nj : Nat) :
     ∃ chunks, (numpyChunks A rows lim cs ns nj).2 = .ok chunks ∧
       (numpyChunks A rows lim cs ns nj).1 = chunks.length := by
-  sorry
+  have key : ∀ arr : List β, (∀ l, lim = some l → min l arr.length = arr.length) →
+      ∃ chunks, chunkTasks A arr true (some arr.length) cs
+          (some (match ns with | some s => if s = 0 then nj * 4 else s | none => nj * 4)) = .ok chunks ∧
+        getNChunks A arr.length lim cs ns nj = chunks.length := by
+    intro arr harr
+    unfold chunkTasks getNChunks
+    cases cs <;> refine ⟨_, rfl, ?_⟩ <;> cases lim with
+    | none => dsimp only; rw [chunkLoop_length_full]; try (cases ns <;> rfl)
+    | some l => dsimp only; rw [harr l rfl, chunkLoop_length_full]; try (cases ns <;> rfl)
+  unfold numpyChunks
+  apply key
+  intro l hl
+  subst hl
+  simp
+
+/-! ## Generic facts about `sizesLoop` under an invariant of the recurrence -/
+
+theorem sizesLoop_dropLast {α} (A : Arith α) (c : α) (P : α → Prop)
+    (hP : ∀ x, P x → P (A.next c x)) :
+    ∀ (avail : Nat) (cur : α), P cur →
+      ∀ s ∈ (sizesLoop A c avail cur).dropLast, ∃ x, P x ∧ s = A.want x := by
+  intro avail
+  induction avail using Nat.strong_induction_on with
+  | _ avail ih =>
+    intro cur hcur s hs
+    by_cases h : avail = 0
+    · subst h; rw [sizesLoop_zero] at hs; simp at hs
+    · have hk := A.want_pos cur
+      rw [sizesLoop_pos A c avail cur h] at hs
+      by_cases h2 : avail - A.want cur = 0
+      · rw [h2, sizesLoop_zero] at hs; simp at hs
+      · rw [sizesLoop_pos A c _ _ h2, List.dropLast_cons_cons] at hs
+        rcases List.mem_cons.1 hs with rfl | hs
+        · exact ⟨cur, hcur, by omega⟩
+        · rw [← sizesLoop_pos A c _ _ h2] at hs
+          exact ih _ (by omega) _ (hP _ hcur) s hs
+
+theorem sizesLoop_ones {α} (A : Arith α) (c : α) (P : α → Prop)
+    (hP : ∀ x, P x → P (A.next c x)) (h1 : ∀ x, P x → A.want x = 1) :
+    ∀ (avail : Nat) (cur : α), P cur → sizesLoop A c avail cur = List.replicate avail 1 := by
+  intro avail
+  induction avail with
+  | zero => intro cur _; rw [sizesLoop_zero]; rfl
+  | succ n ih =>
+    intro cur hcur
+    rw [sizesLoop_pos A c _ _ (by omega), h1 cur hcur, List.replicate_succ,
+      Nat.add_sub_cancel, ih _ (hP _ hcur), show min 1 (n + 1) = 1 by omega]
+
+/-! ## Integer arithmetic -/
 
 theorem int_sizes {β} (k : Nat) (hk : 1 ≤ k) (lim : Option Nat) (xs : List β) :
     ∀ s ∈ ((chunkLoop intA (k : Int) lim xs (k : Int) 0).map List.length).dropLast, s = k := by
-  sorry
+  intro s hs
+  rw [chunkLoop_sizes] at hs
+  obtain ⟨x, hx, rfl⟩ := sizesLoop_dropLast intA (k : Int) (fun x => x = (k : Int))
+    (by intro x hx; subst hx; show ((k : Int) + k) - id (k : Int) = k; simp) _ _ rfl s hs
+  subst hx
+  show (max 1 (id (k : Int))).toNat = k
+  simp only [id]; omega
+
+/-! ## Exact rational arithmetic -/
+
+theorem ratA_want (x : Rat) : ratA.want x = (max 1 x.ceil).toNat := rfl
+theorem ratA_next (c x : Rat) : ratA.next c x = x + c - (x.ceil : Rat) := rfl
+
+/-- The invariant of the exact recurrence: `current` always stays in `(c-1, c]`. -/
+def RInv (c x : Rat) : Prop := c - 1 < x ∧ x ≤ c
+
+theorem RInv_self (c : Rat) : RInv c c := ⟨by linarith, le_refl _⟩
+
+theorem RInv_next (c x : Rat) : RInv c (ratA.next c x) := by
+  rw [ratA_next]
+  have h1 := @Rat.le_ceil x
+  have h2 := @Rat.ceil_lt x
+  constructor <;> linarith
+
+theorem RInv_ceil_le {c x : Rat} (h : RInv c x) : x.ceil ≤ c.ceil := by
+  rw [Rat.ceil_le_iff]
+  have := @Rat.le_ceil c
+  linarith [h.2]
+
+theorem RInv_floor_le {c x : Rat} (h : RInv c x) : c.floor ≤ x.ceil := by
+  have h1 := Rat.floor_le c
+  have : ((c.floor - 1 : Int) : Rat) < x := by push_cast; linarith [h.1]
+  have := Rat.lt_ceil_iff.2 this
+  omega
+
+theorem rat_ceil_le_floor_add_one (c : Rat) : c.ceil ≤ c.floor + 1 := by
+  rw [Rat.ceil_le_iff]
+  exact le_of_lt (Rat.lt_floor_add_one c)
+
+theorem RInv_one_le_ceil {c x : Rat} (hc : 1 ≤ c) (h : RInv c x) : 1 ≤ x.ceil := by
+  have : ((0 : Int) : Rat) < x := by push_cast; linarith [h.1]
+  have := Rat.lt_ceil_iff.2 this
+  omega
+
+theorem RInv_want_one {c x : Rat} (hc : c ≤ 1) (h : RInv c x) : ratA.want x = 1 := by
+  rw [ratA_want]
+  have : x.ceil ≤ 1 := by rw [Rat.ceil_le_iff]; push_cast; linarith [h.2]
+  omega
 
 theorem real_sizes {β} (c : Rat) (hc : 1 ≤ c) (lim : Option Nat) (xs : List β) :
     ∀ s ∈ ((chunkLoop ratA c lim xs c 0).map List.length).dropLast,
       (s : Int) = c.floor ∨ (s : Int) = c.ceil := by
-  sorry
+  intro s hs
+  rw [chunkLoop_sizes] at hs
+  obtain ⟨x, hx, rfl⟩ := sizesLoop_dropLast ratA c (RInv c) (fun x _ => RInv_next c x) _ _
+    (RInv_self c) s hs
+  rw [ratA_want]
+  have h1 := RInv_one_le_ceil hc hx
+  have h2 := RInv_ceil_le hx
+  have h3 := RInv_floor_le hx
+  have h4 := rat_ceil_le_floor_add_one c
+  omega
+
+/-- one step of the exact recurrence keeps the closed form -/
+theorem step_closed (c : Rat) (hc : 1 ≤ c) (i : Nat) (ret : Int) (cur : Rat)
+    (hret : ret = ((i : Rat) * c).ceil) (hcur : cur = ((i : Rat) + 1) * c - ret) :
+    (1 ≤ cur.ceil) ∧ (ret + cur.ceil = ((((i + 1 : Nat) : Rat)) * c).ceil) ∧
+    (cur + c - cur.ceil = ((((i + 1 : Nat) : Rat)) + 1) * c - ((ret + cur.ceil : Int) : Rat)) := by
+  have h1 : cur.ceil = (((i : Rat) + 1) * c).ceil - ret := by
+    have : cur = ((i : Rat) + 1) * c + ((-ret : Int) : Rat) := by
+      rw [hcur]; push_cast; ring
+    rw [this, Rat.ceil_add_intCast]; ring
+  refine ⟨?_, ?_, ?_⟩
+  · have hr : (ret : Rat) < (i : Rat) * c + 1 := by
+      have := @Rat.ceil_lt ((i : Rat) * c)
+      rw [hret]; exact this
+    have hpos : (0 : Rat) < cur := by rw [hcur]; nlinarith
+    have : ((0 : Int) : Rat) < cur := by simpa using hpos
+    have := (Rat.lt_ceil_iff).2 this
+    omega
+  · rw [h1]; push_cast; ring_nf
+  · rw [hcur]; push_cast; ring
+
+theorem sizes_closed (n s : Nat) (c : Rat) (hc : 1 ≤ c) (hsc : (s : Rat) * c = n) :
+    ∀ (j i : Nat), i + j = s → ∀ (avail : Nat) (cur : Rat),
+      (avail : Int) = n - ((i : Rat) * c).ceil →
+      cur = ((i : Rat) + 1) * c - ((((i : Rat) * c).ceil : Int) : Rat) →
+      (sizesLoop ratA c avail cur).length = j ∧
+        ∀ x ∈ sizesLoop ratA c avail cur, c.floor ≤ (x : Int) ∧ (x : Int) ≤ c.ceil := by
+  intro j
+  induction j with
+  | zero =>
+    intro i hi avail cur hav _
+    have hi' : i = s := by omega
+    subst hi'
+    have : ((i : Rat) * c).ceil = n := by
+      rw [hsc, ← Int.cast_natCast, Rat.ceil_intCast]
+    have : avail = 0 := by omega
+    subst this
+    rw [sizesLoop_zero]; simp
+  | succ j ih =>
+    intro i hi avail cur hav hcur
+    obtain ⟨s1, s2, s3⟩ := step_closed c hc i _ cur rfl hcur
+    have hinv : RInv c cur := by
+      have h1 := @Rat.le_ceil ((i : Rat) * c)
+      have h2 := @Rat.ceil_lt ((i : Rat) * c)
+      rw [hcur]; constructor <;> linarith
+    have hle : ((((i + 1 : Nat) : Rat)) * c).ceil ≤ n := by
+      rw [Rat.ceil_le_iff]
+      have : (((i + 1 : Nat) : Rat)) ≤ (s : Rat) := by exact_mod_cast (by omega : i + 1 ≤ s)
+      have := mul_le_mul_of_nonneg_right this (by linarith : (0 : Rat) ≤ c)
+      rw [hsc] at this
+      exact_mod_cast this
+    have hw : ratA.want cur = cur.ceil.toNat := by rw [ratA_want]; congr 1; omega
+    have h0 : avail ≠ 0 := by omega
+    have hmin : min (ratA.want cur) avail = ratA.want cur := by rw [hw]; omega
+    obtain ⟨ih1, ih2⟩ := ih (i + 1) (by omega) (avail - ratA.want cur) (ratA.next c cur)
+      (by rw [hw, ← s2]; omega)
+      (by rw [ratA_next, s3, s2])
+    rw [sizesLoop_pos ratA c avail cur h0, hmin]
+    refine ⟨by simp [ih1], ?_⟩
+    intro x hx
+    rcases List.mem_cons.1 hx with rfl | hx
+    · have h2 := RInv_ceil_le hinv
+      have h3 := RInv_floor_le hinv
+      rw [hw]; omega
+    · exact ih2 x hx
+
+theorem splits_main (n s : Nat) (hs : 1 ≤ s) :
+    (sizesLoop ratA ((n : Rat) / (s : Rat)) n ((n : Rat) / (s : Rat))).length = min n s ∧
+    (∀ a ∈ sizesLoop ratA ((n : Rat) / (s : Rat)) n ((n : Rat) / (s : Rat)),
+      ∀ b ∈ sizesLoop ratA ((n : Rat) / (s : Rat)) n ((n : Rat) / (s : Rat)), a ≤ b + 1) ∧
+    (n ≤ s → ∀ a ∈ sizesLoop ratA ((n : Rat) / (s : Rat)) n ((n : Rat) / (s : Rat)), a = 1) := by
+  have hs0 : (0 : Rat) < (s : Rat) := by exact_mod_cast (by omega : 0 < s)
+  generalize hc : (n : Rat) / (s : Rat) = c
+  have hsc : (s : Rat) * c = n := by rw [← hc]; exact mul_div_cancel₀ _ (ne_of_gt hs0)
+  by_cases hns : n ≤ s
+  · have hc1 : c ≤ 1 := by
+      have : (n : Rat) ≤ (s : Rat) := by exact_mod_cast hns
+      nlinarith
+    have := sizesLoop_ones ratA c (RInv c) (fun x _ => RInv_next c x)
+      (fun x hx => RInv_want_one hc1 hx) n c (RInv_self c)
+    rw [this]
+    refine ⟨by simp; omega, ?_, ?_⟩
+    · intro a ha b hb
+      rw [List.mem_replicate] at ha hb
+      omega
+    · intro _ a ha
+      exact (List.mem_replicate.1 ha).2
+  · have hc1 : 1 ≤ c := by
+      have : (s : Rat) ≤ (n : Rat) := by exact_mod_cast (by omega : s ≤ n)
+      nlinarith
+    have h0 : (((0 : Nat) : Rat) * c).ceil = 0 := by
+      rw [show ((0 : Nat) : Rat) * c = ((0 : Int) : Rat) by simp, Rat.ceil_intCast]
+    obtain ⟨k1, k2⟩ := sizes_closed n s c hc1 hsc s 0 (by omega) n c
+      (by rw [h0]; simp) (by rw [h0]; push_cast; ring)
+    refine ⟨by omega, ?_, fun h => absurd h hns⟩
+    intro a ha b hb
+    have ha' := k2 a ha
+    have hb' := k2 b hb
+    have := rat_ceil_le_floor_add_one c
+    omega
+
+theorem splits_none_sizes {β} (xs : List β) (s : Nat) (chunks : List (List β))
+    (h : chunkTasks ratA xs true none .none (some s) = .ok chunks) :
+    chunks.map List.length =
+      sizesLoop ratA ((xs.length : Rat) / (s : Rat)) xs.length ((xs.length : Rat) / (s : Rat)) := by
+  unfold chunkTasks at h
+  injection h with h
+  subst h
+  exact chunkLoop_sizes ratA _ none xs _
+
+theorem splits_some_sizes {β} (xs : List β) (sized : Bool) (l s : Nat) (hl : l ≤ xs.length)
+    (chunks : List (List β))
+    (h : chunkTasks ratA xs sized (some l) .none (some s) = .ok chunks) :
+    chunks.map List.length =
+      sizesLoop ratA ((l : Rat) / (s : Rat)) l ((l : Rat) / (s : Rat)) := by
+  unfold chunkTasks at h
+  injection h with h
+  subst h
+  have := chunkLoop_sizes ratA ((l : Rat) / (s : Rat)) (some l) xs ((l : Rat) / (s : Rat))
+  dsimp only at this
+  rw [show min xs.length l = l by omega] at this
+  exact this
 
 theorem splits_count {β} (xs : List β) (s : Nat) (hs : 1 ≤ s) (chunks : List (List β))
     (h : chunkTasks ratA xs true none .none (some s) = .ok chunks) :
     chunks.length = min xs.length s := by
-  sorry
+  rw [← (splits_main xs.length s hs).1, ← splits_none_sizes xs s chunks h, List.length_map]
 
 theorem splits_balanced {β} (xs : List β) (s : Nat) (hs : 1 ≤ s) (chunks : List (List β))
     (h : chunkTasks ratA xs true none .none (some s) = .ok chunks) :
     ∀ a ∈ chunks, ∀ b ∈ chunks, a.length ≤ b.length + 1 := by
-  sorry
+  intro a ha b hb
+  have h2 := (splits_main xs.length s hs).2.1
+  rw [← splits_none_sizes xs s chunks h] at h2
+  exact h2 _ (List.mem_map_of_mem ha) _ (List.mem_map_of_mem hb)
 
 theorem splits_lim {β} (xs : List β) (sized : Bool) (l s : Nat) (hs : 1 ≤ s) (hl : l ≤ xs.length)
     (chunks : List (List β)) (h : chunkTasks ratA xs sized (some l) .none (some s) = .ok chunks) :
     chunks.length = min l s ∧ ∀ a ∈ chunks, ∀ b ∈ chunks, a.length ≤ b.length + 1 := by
-  sorry
+  have hm := splits_main l s hs
+  rw [← splits_some_sizes xs sized l s hl chunks h] at hm
+  refine ⟨by rw [← hm.1, List.length_map], ?_⟩
+  intro a ha b hb
+  exact hm.2.1 _ (List.mem_map_of_mem ha) _ (List.mem_map_of_mem hb)
 
 theorem splits_singletons {β} (xs : List β) (s : Nat) (hs : xs.length ≤ s) (hs1 : 1 ≤ s)
     (chunks : List (List β)) (h : chunkTasks ratA xs true none .none (some s) = .ok chunks) :
     ∀ a ∈ chunks, a.length = 1 := by
-  sorry
+  intro a ha
+  have h3 := (splits_main xs.length s hs1).2.2 hs
+  rw [← splits_none_sizes xs s chunks h] at h3
+  exact h3 _ (List.mem_map_of_mem ha)
 
 end Mpire.Proofs
